@@ -1,0 +1,14 @@
+//go:build verif
+
+// Contracts for package hugecache (comment-only; read by /verif/vcgo, build tag verif). Property C03: a cache row is trusted
+// as a key -> value map, so the KEY must determine the CID: the key of a CID-addressed row is a fixed prefix followed by the
+// text form of the CID (cidstr(c) = c.String(), an injective function of the CID value), nothing shorter.
+package hugecache
+
+//@ func formatRawCarObjectKey
+//@   mode int
+//@   ensures result == "rco-" + cidstr(c)
+
+//@ func formatOffsetAndSizeKey
+//@   mode int
+//@   ensures result == "o&s-" + cidstr(c)
